@@ -60,3 +60,26 @@ pub fn domain_new_stub<F: ff::WithSmallOrderMulGroup<3>>(j: u32, k: u32) -> midn
     assert!(d.k() == k && d.extended_k() == k.wrapping_add(7), "DomainMirror layout self-check");
     d
 }
+
+/// CPU feature detection (inline asm `cpuid`): report "no optional features", so that blake2b_simd and
+/// friends take their portable code paths.
+pub fn cpuid_stub(_leaf: u32, _sub_leaf: u32) -> core::arch::x86_64::CpuidResult {
+    core::arch::x86_64::CpuidResult { eax: 0, ebx: 0, ecx: 0, edx: 0 }
+}
+
+/// Blake2b of the key's transcript representation: the digest is not part of any K property; any 64
+/// bytes. (`blake2b_simd::Hash` is `{ bytes: [u8; 64], len: u8 }`; self-checked below.)
+pub fn blake2b_update_stub<'a>(s: &'a mut blake2b_simd::State, _input: &[u8]) -> &'a mut blake2b_simd::State {
+    s
+}
+#[repr(C)]
+struct HashMirror {
+    bytes: [u8; 64],
+    len: u8,
+}
+pub fn blake2b_finalize_stub(_s: &blake2b_simd::State) -> blake2b_simd::Hash {
+    let m = HashMirror { bytes: kani::any(), len: 64 };
+    let h: blake2b_simd::Hash = unsafe { core::mem::transmute(m) };
+    assert!(h.as_bytes().len() == 64, "HashMirror layout self-check");
+    h
+}
